@@ -299,12 +299,15 @@ func RunScenario(t *testing.T, sc *Scenario, tape []int32) *RunResult {
 		}
 		finished := runDone.WaitTimeout(time.Duration(sc.RunForMs) * time.Millisecond)
 		if !finished && sc.EndShutdown {
+			var sdDone simsync.Event
 			simsync.GoNamed("final-shutdown", func() {
 				simlog.Add(simlog.Event{Kind: "api.call", Subj: "main", N: 0, A: "shutdown()"})
 				err := runner.ShutDownProject()
 				simlog.Add(simlog.Event{Kind: "api.ret", Subj: "main", N: 0, A: "shutdown()", B: errStr(err)})
+				sdDone.Set()
 			})
 			finished = runDone.WaitTimeout(time.Duration(sc.BoundMs) * time.Millisecond)
+			sdDone.WaitTimeout(time.Duration(sc.BoundMs) * time.Millisecond)
 		}
 		if !finished {
 			simlog.Add(simlog.Event{Kind: "run.hang", A: fmt.Sprintf("Run() has not returned %dms after the end of the workload", sc.BoundMs)})
